@@ -1,5 +1,6 @@
 import FluentVerif.Driver.Codec
 import FluentVerif.Client.Tcp
+import FluentVerif.Client.Helpers
 /-! driver for `SEQ`: operation sequences on the TCP client -/
 namespace FV.Driver
 open FV.Tcp
@@ -53,6 +54,72 @@ def acceptedOf (evs : List String) : Bytes :=
 def allWritesOk (evs : List String) : Bool :=
   evs.all fun e => !(e.startsWith "w") || e.endsWith ":ok"
 
+
+/-- the helper a `HLP(...)` token denotes -/
+def treeHelper : Tree → Option Helper
+  | .node "HLP" [.atom "SendMessage", tag, v] => do pure (.message (← treeHex tag) (← treeGoVal v))
+  | .node "HLP" [.atom "SendMessageExt", tag, v] => do pure (.messageExt (← treeHex tag) (← treeGoVal v))
+  | .node "HLP" [.atom "SendForward", tag, .node "L" es] => do pure (.forward (← treeHex tag) (← treeEntries es))
+  | .node "HLP" [.atom "SendPacked", tag, .node "L" es] => do pure (.packed (← treeHex tag) (← treeEntries es))
+  | .node "HLP" [.atom "SendCompressed", tag, .node "L" es] => do pure (.compressed (← treeHex tag) (← treeEntries es))
+  | .node "HLP" [.atom "SendPackedFromBytes", tag, b] => do pure (.packedBytes (← treeHex tag) (← treeHex b))
+  | .node "HLP" [.atom "SendCompressedFromBytes", tag, b] => do pure (.compressedBytes (← treeHex tag) (← treeHex b))
+  | _ => none
+
+def chunkOfObj (o : Obj) : Bytes :=
+  match o with
+  | .arr xs =>
+    match (Spec.objsToList xs).getLast? with
+    | some (.map kvs) =>
+      match (Spec.pairs (Spec.objsToList kvs)).find? fun (k, _) => match k with | .str s => s == kChunk | _ => false with
+      | some (_, .str c) => c
+      | _ => []
+    | _ => []
+  | _ => []
+
+/-- a chunk id as `makeChunkID` builds them: base64 of 16 bytes with the UUIDv4 version and variant bits -/
+def wellFormedChunkID (c : Bytes) : Bool :=
+  match b64dec c with
+  | some d => d.length == 16 && uuidMask d == d && b64enc d == c
+  | none => false
+
+/-- what a successful helper call must have put on the wire: exactly the bytes `Helper.wireG` gives
+for the clock reading and chunk id found in them (checked for plausibility separately), with the
+compressor's output taken from the run and checked by decompressing it -/
+def helperOracle (hname : String) (opT : Tree) (ack : Bool) (t0 : Int) (wire : Bytes)
+    (gunzip gzok : Option String) : List String :=
+  match treeHelper opT, parse wire with
+  | none, _ => [s!"C02 unparsable helper token {hname}"]
+  | _, none => [s!"C02 {hname} wrote something that is not one msgpack value"]
+  | some h, some (o, rest) =>
+    if !rest.isEmpty then [s!"C02 {hname} wrote something that is not one msgpack value"] else
+    let second := match o with | .arr (.cons _ (.cons x _)) => some x | _ => none
+    let now : Option Instant := match h, second with
+      | .message .., some (.int ts) => some { sec := ts, nsec := 0 }
+      | .messageExt .., some (.ext _ d) => decodeET d
+      | .message .., _ => none
+      | .messageExt .., _ => none
+      | _, _ => some { sec := 0, nsec := 0 }
+    let z := match second with | some (.bin z) => z | _ => []
+    let id := chunkOfObj o
+    let stampOk := match h, now with
+      | .message .., some i => decide (t0 ≤ i.sec ∧ i.sec ≤ t0 + 2)
+      | .messageExt .., some i => decide (t0 ≤ i.sec ∧ i.sec ≤ t0 + 2)
+      | _, some _ => true
+      | _, none => false
+    let want := h.wireG (fun _ => some z) (now.getD { sec := 0, nsec := 0 }) ack id
+    let payload : Option Bytes := match h with
+      | .compressed _ es => marshalPacked es
+      | .compressedBytes _ b => some b
+      | _ => none
+    let gz := match h with
+      | .compressed .. | .compressedBytes .. => gzok == some "true0" && (gunzip.bind parseHex) == payload
+      | _ => true
+    (if want == some wire then [] else [s!"C02 {hname}: the wire does not carry the mode and contents the helper names (model {(want.map toHex).getD "encoder-error"})"]) ++
+    (if stampOk then [] else [s!"C02 {hname} is not stamped with the time of the call"]) ++
+    (if !ack || wellFormedChunkID id then [] else [s!"C12 {hname}: chunk id on the wire is not a well-formed generated id"]) ++
+    (if gz then [] else ["C03 helper stream is not one complete gzip member of exactly the given entries"])
+
 structure SeqAcc where
   st : St := {}
   corr : List String := []
@@ -60,6 +127,7 @@ structure SeqAcc where
   openConns : List String := []     -- from events only (C14 oracle)
   closedConns : List String := []
   branches : List String := []
+  dirty : List Nat := []           -- connections whose peer sent something other than one conforming ack per response
 
 /-- the message the token denotes, with the observed chunk id filled in (Chunk() draws it at random) -/
 def encodeWithChunk (t : Tree) (requireAck : Bool) (chunk : Bytes) : Option (Option Bytes) :=
@@ -90,6 +158,18 @@ def specAck (resp : Bytes) : Option Bytes :=
     | some (_, .str a) => some a
     | _ => none
   | _ => none
+
+/-- one complete map with string keys whose `ack` entries are strings: what a conforming ack looks like,
+whatever else it carries -/
+def conformingAck (resp : Bytes) : Bool :=
+  match parse resp with
+  | some (.map kvs, []) =>
+    (Spec.pairs (Spec.objsToList kvs)).all fun (k, v) =>
+      match k, v with
+      | .str s, .str _ => true || s == kAck
+      | .str s, _ => s != kAck
+      | _, _ => false
+  | _ => false
 
 def opSEQ (args obs : List String) : Option DecOut := do
   let cfgT ← (args.head?).bind parseTok
@@ -145,7 +225,8 @@ def opSEQ (args obs : List String) : Option DecOut := do
         | .node "RAW" [b, .atom f] => (treeHex b).map fun b => Op.sendRaw b (parseFault f)
         | .node "SND" [m, _, .atom f] => do
           let chunk := ((kvGet "chunk" xs).bind parseHex).getD []
-          let resp := ((kvGet "resp" xs).bind parseHex).getD []
+          -- what the client can read: bytes it left unread earlier, then this response
+          let resp := ((kvGet "pre" xs).bind parseHex).getD [] ++ ((kvGet "resp" xs).bind parseHex).getD []
           match m with
           | .node "RAWM" [b] => do
             let b ← treeHex b
@@ -167,24 +248,7 @@ def opSEQ (args obs : List String) : Option DecOut := do
         let okWire : List String :=
           match sess with
           | some (_, true) =>
-            if res == "ok" then
-              match parse wire with
-              | some (o, []) =>
-                let modeOk := match hname with
-                  | "SendMessage" => Spec.isMessage o
-                  | "SendMessageExt" => Spec.isMessageExt o
-                  | "SendForward" => Spec.isForward o
-                  | _ => Spec.isPacked o
-                let stampOk := match hname, o with
-                  | "SendMessage", .arr (.cons _ (.cons (.int ts) _)) => decide (t0 ≤ ts ∧ ts ≤ t0 + 2)
-                  | "SendMessageExt", .arr (.cons _ (.cons (.ext _ d) _)) =>
-                    (match decodeET d with | some i => decide (t0 ≤ i.sec ∧ i.sec ≤ t0 + 2) | none => false)
-                  | _, _ => true
-                let gz := if hname.startsWith "SendCompressed" then (kvGet "gzok" xs) == some "true0" else true
-                (if modeOk then [] else [s!"C02 {hname} did not put its mode on the wire"]) ++
-                (if stampOk then [] else [s!"C02 {hname} is not stamped with the time of the call"]) ++
-                (if gz then [] else ["C03 helper stream is not one complete gzip member"])
-              | _ => [s!"C02 {hname} wrote something that is not one msgpack value"]
+            if res == "ok" then helperOracle hname opT ack t0 wire (kvGet "gunzip" xs) (kvGet "gzok" xs)
             else []
           | _ => if res == "ok" || !evs.isEmpty then [s!"C06 {hname} outside a live authenticated session"] else []
         -- keep the model's log in step with what happened (the helper's bytes are data written in transport phase)
@@ -201,6 +265,7 @@ def opSEQ (args obs : List String) : Option DecOut := do
           else [s!"{opName}: model=({outStr out};{newEvs}) go=({res};{goEvs})"]
         -- ---------------- property oracles on what the real code did ----------------
         let sess := sBefore.session
+        let connId : Nat := match sess with | some (id, _) => id | none => 0
         let wire := acceptedOf evs
         let writes := evs.filter (·.startsWith "w")
         let isSend := opName == "SND" || opName == "RAW"
@@ -234,13 +299,18 @@ def opSEQ (args obs : List String) : Option DecOut := do
           | .node "RAW" [b, _] => if res == "ok" && allWritesOk evs && some wire != treeHex b then ["C02 SendRaw bytes not verbatim"] else []
           | .node "SND" [.node "RAWM" [b], _, _] =>
             (match treeHex b with
-             | some rb => if res == "ok" && !rb.isEmpty && wire != rb && !ack then ["C02 RawMessage bytes not verbatim"] else []
+             | some rb => if res == "ok" && !rb.isEmpty && wire != rb then ["C02 RawMessage bytes not verbatim"] else []
              | none => [])
           | _ => []
         -- C04: success exactly when the peer acknowledged the chunk that is on the wire
         let f04 :=
           if opName == "SND" && ack && (match sess with | some (_, true) => true | _ => false) && allWritesOk evs && !writes.isEmpty then
             let resp := ((kvGet "resp" xs).bind parseHex).getD []
+            let pre := ((kvGet "pre" xs).bind parseHex).getD []
+            -- as long as every earlier response on this connection was one complete conforming ack map, this
+            -- send is judged on this response alone; after a misbehaving peer, on the byte stream as it stands
+            let clean := !(acc.dirty.contains connId)
+            let resp := if clean then resp else pre ++ resp
             let onWire := match parse wire with
               | some (o, []) => Spec.chunkOf o
               | _ => none
@@ -248,6 +318,7 @@ def opSEQ (args obs : List String) : Option DecOut := do
               | some a, some c => a == c
               | _, _ => false
             (if (res == "ok") == acked then [] else [s!"C04 Send={res} but peer-acknowledged-this-chunk={acked}"]) ++
+            (if clean && !pre.isEmpty then ["C04 part of an earlier conforming ack was left unread on the connection"] else []) ++
             (if tmo && expected == some wire && !(evs.any (·.startsWith "dl")) then ["C04 no read deadline armed before waiting for the ack"] else [])
           else []
         -- C05: transport phase only after a PONG that proves knowledge of the key
@@ -270,7 +341,8 @@ def opSEQ (args obs : List String) : Option DecOut := do
                 salt.length == 16 && d == H (salt ++ h ++ n ++ key.getD [])
               | _, _ => false
             let sessAlive := sess.isSome
-            (if goOk && !(proof && sessAlive) then ["C05 handshake succeeded without a PONG carrying auth_result=true and the digest for this salt/nonce/key"] else []) ++
+            (if goOk && !(proof && sessAlive) then ["C05 handshake succeeded without a PONG carrying auth_result=true and the digest for this salt/nonce/key",
+                "C10 peer bytes left the client in transport phase without a valid handshake"] else []) ++
             (if goOk && key.isSome && (kvGet "peerknows" xs) == some "f" then
                [s!"C05 a peer that does not know the key was accepted (peer behaviour: {(kvGet "mode" xs).getD "?"})"] else []) ++
             (if !goOk && proof && sessAlive && allWritesOk evs && !writes.isEmpty && (match parse pong with | some (_, []) => true | _ => false) then ["C05 a valid PONG was rejected"] else []) ++
@@ -282,7 +354,16 @@ def opSEQ (args obs : List String) : Option DecOut := do
              | _, _ => []) ++
             (if tpAfter != goOk && !(match sess with | some (_, true) => true | _ => false) then [] else [])
           else []
-        { acc with st := st', corr := acc.corr ++ corr,
+        let dirty' :=
+          if opName == "SND" then
+            let r := ((kvGet "resp" xs).bind parseHex).getD []
+            if r.isEmpty || conformingAck r || acc.dirty.contains connId then acc.dirty else connId :: acc.dirty
+          else if opName == "HS" then
+            -- anything but an honest standard handshake may leave part of the peer's bytes unread
+            let honest := match opT with | .node "HS" [.atom "std", .atom "honest", _] => res == "ok" | _ => false
+            if honest || acc.dirty.contains connId then acc.dirty else connId :: acc.dirty
+          else acc.dirty
+        { acc with st := st', corr := acc.corr ++ corr, dirty := dirty',
                    fails := acc.fails ++ f10 ++ f06a ++ fHang ++ f14 ++ f06 ++ f09 ++ f02 ++ f04 ++ f05,
                    openConns := opens, closedConns := closes, branches := acc.branches ++ [s!"{opName}.{res}"] }
     | _, _ => { acc with corr := acc.corr ++ [s!"unparsable observation for {p.1}"] }
